@@ -101,16 +101,173 @@ theorem mem_recsOf_of {h : History} {o : Oid} {t : Txn} {r : Rec} (ht : t ∈ h)
   simp only [recsOf, List.mem_filterMap, Option.map_eq_some_iff]
   exact ⟨t, ht, r, hr, rfl⟩
 
+/-! ### several records of one oid in a transaction: the last one counts -/
+
+abbrev OidNodup (l : List Rec) : Prop := l.Pairwise (fun a b => a.oid ≠ b.oid)
+
+theorem dedupLast_sub : ∀ {l : List Rec} {r : Rec}, r ∈ dedupLast l → r ∈ l := by
+  intro l
+  induction l with
+  | nil => intro r h; simp [dedupLast] at h
+  | cons a rest ih =>
+    intro r h
+    simp only [dedupLast] at h
+    split at h
+    · exact List.mem_cons_of_mem _ (ih h)
+    · rcases List.mem_cons.1 h with rfl | h
+      · exact List.mem_cons_self ..
+      · exact List.mem_cons_of_mem _ (ih h)
+
+theorem dedupLast_covers : ∀ {l : List Rec} {r : Rec}, r ∈ l → ∃ r' ∈ dedupLast l, r'.oid = r.oid := by
+  intro l
+  induction l with
+  | nil => intro r h; simp at h
+  | cons a rest ih =>
+    intro r h
+    simp only [dedupLast]
+    rcases List.mem_cons.1 h with rfl | h
+    · split
+      · rename_i hany
+        obtain ⟨x, hx, hox⟩ := List.any_eq_true.1 hany
+        obtain ⟨r', hr', e⟩ := ih hx
+        exact ⟨r', hr', by rw [e]; simpa using hox⟩
+      · exact ⟨r, List.mem_cons_self .., rfl⟩
+    · obtain ⟨r', hr', e⟩ := ih h
+      split
+      · exact ⟨r', hr', e⟩
+      · exact ⟨r', List.mem_cons_of_mem _ hr', e⟩
+
+theorem dedupLast_nodup : ∀ (l : List Rec), OidNodup (dedupLast l) := by
+  intro l
+  induction l with
+  | nil => exact List.Pairwise.nil
+  | cons a rest ih =>
+    simp only [dedupLast]
+    split
+    · exact ih
+    · rename_i hany
+      refine List.Pairwise.cons ?_ ih
+      intro b hb e
+      apply hany
+      exact List.any_eq_true.2 ⟨b, dedupLast_sub hb, by simp [e]⟩
+
+theorem dedupLast_of_nodup : ∀ {l : List Rec}, OidNodup l → dedupLast l = l := by
+  intro l
+  induction l with
+  | nil => intro _; rfl
+  | cons a rest ih =>
+    intro h
+    obtain ⟨h1, h2⟩ := List.pairwise_cons.1 h
+    simp only [dedupLast]
+    have : rest.any (fun x => x.oid == a.oid) = false := by
+      rw [List.any_eq_false]
+      intro x hx
+      have := h1 x hx
+      simp only [beq_iff_eq]
+      exact fun e => this e.symm
+    simp [this, ih h2]
+
+theorem dedupLast_map {f : Rec → Rec} (hf : ∀ r, (f r).oid = r.oid) :
+    ∀ (l : List Rec), dedupLast (l.map f) = (dedupLast l).map f := by
+  intro l
+  induction l with
+  | nil => rfl
+  | cons a rest ih =>
+    simp only [List.map_cons, dedupLast, List.any_map, Function.comp_def, hf]
+    split
+    · exact ih
+    · simp [ih]
+
+theorem dedupLast_filter_oid (keep : Oid → Bool) :
+    ∀ (l : List Rec), dedupLast (l.filter (fun r => keep r.oid)) = (dedupLast l).filter (fun r => keep r.oid) := by
+  intro l
+  induction l with
+  | nil => rfl
+  | cons a rest ih =>
+    by_cases hk : keep a.oid = true
+    · rw [List.filter_cons_of_pos (by simpa using hk)]
+      simp only [dedupLast]
+      have hany : (rest.filter (fun r => keep r.oid)).any (fun x => x.oid == a.oid) =
+          rest.any (fun x => x.oid == a.oid) := by
+        rw [Bool.eq_iff_iff, List.any_eq_true, List.any_eq_true]
+        constructor
+        · rintro ⟨x, hx, e⟩; exact ⟨x, (List.mem_filter.1 hx).1, e⟩
+        · rintro ⟨x, hx, e⟩
+          refine ⟨x, List.mem_filter.2 ⟨hx, ?_⟩, e⟩
+          have : x.oid = a.oid := by simpa using e
+          simp [this, hk]
+      rw [hany]
+      split
+      · exact ih
+      · rw [List.filter_cons_of_pos (by simpa using hk), ih]
+    · rw [List.filter_cons_of_neg (by simpa using hk)]
+      simp only [dedupLast]
+      split
+      · exact ih
+      · rw [List.filter_cons_of_neg (by simpa using hk)]; exact ih
+
+theorem oidNodup_filter {l : List Rec} (p : Rec → Bool) (h : OidNodup l) : OidNodup (l.filter p) :=
+  List.Pairwise.sublist List.filter_sublist h
+
+theorem oidNodup_map {l : List Rec} {f : Rec → Rec} (hf : ∀ r, (f r).oid = r.oid) (h : OidNodup l) :
+    OidNodup (l.map f) := by
+  unfold OidNodup
+  rw [List.pairwise_map]
+  exact h.imp (fun hab => by rw [hf, hf]; exact hab)
+
+/-- `recOf` is the LAST record of the oid (the form used by `History.lean` / the C04 model) -/
+theorem find?_dedupLast (o : Oid) : ∀ (l : List Rec),
+    (dedupLast l).find? (fun r => r.oid == o) = (l.filter (fun r => r.oid == o)).getLast? := by
+  intro l
+  induction l with
+  | nil => rfl
+  | cons a rest ih =>
+    simp only [dedupLast]
+    by_cases hany : rest.any (fun x => x.oid == a.oid) = true
+    · rw [if_pos hany, ih]
+      by_cases ha : a.oid = o
+      · rw [List.filter_cons_of_pos (by simpa using ha)]
+        obtain ⟨x, hx, hox⟩ := List.any_eq_true.1 hany
+        have hxo : x.oid = o := by rw [← ha]; simpa using hox
+        have hne : rest.filter (fun r => r.oid == o) ≠ [] := by
+          intro hc
+          have : x ∈ rest.filter (fun r => r.oid == o) := List.mem_filter.2 ⟨hx, by simpa using hxo⟩
+          rw [hc] at this; simp at this
+        rw [List.getLast?_cons_of_ne_nil hne]
+      · rw [List.filter_cons_of_neg (by simpa using ha)]
+    · rw [if_neg hany]
+      by_cases ha : a.oid = o
+      · have hnil : rest.filter (fun r => r.oid == o) = [] := by
+          rw [List.filter_eq_nil_iff]
+          intro x hx hox
+          apply hany
+          exact List.any_eq_true.2 ⟨x, hx, by rw [ha]; exact hox⟩
+        rw [List.filter_cons_of_pos (by simpa using ha), hnil]
+        simp [List.find?, ha]
+      · rw [List.filter_cons_of_neg (by simpa using ha)]
+        have : (a.oid == o) = false := by simpa using ha
+        simp only [List.find?, this]
+        exact ih
+
+theorem recOf_eq_last (t : Txn) (o : Oid) :
+    t.recOf o = (t.recs.filter (fun r => r.oid == o)).getLast? := find?_dedupLast o t.recs
+
 theorem recOf_mem {t : Txn} {o : Oid} {r : Rec} (h : t.recOf o = some r) : r ∈ t.recs ∧ r.oid = o := by
   unfold Txn.recOf at h
   have h1 := List.mem_of_find?_eq_some h
   have h2 := List.find?_some h
-  exact ⟨h1, by simpa using h2⟩
+  exact ⟨dedupLast_sub h1, by simpa using h2⟩
+
+theorem recOf_mem_dedup {t : Txn} {o : Oid} {r : Rec} (h : t.recOf o = some r) :
+    r ∈ dedupLast t.recs := by
+  unfold Txn.recOf at h
+  exact List.mem_of_find?_eq_some h
 
 theorem recOf_isSome_of_mem {t : Txn} {r : Rec} (h : r ∈ t.recs) : (t.recOf r.oid).isSome := by
   unfold Txn.recOf
   rw [List.find?_isSome]
-  exact ⟨r, h, by simp⟩
+  obtain ⟨r', hr', e⟩ := dedupLast_covers h
+  exact ⟨r', hr', by simp [e]⟩
 
 theorem recsOf_tid_le {h : History} {T : Tid} (hle : ∀ t ∈ h, t.tid ≤ T) {o : Oid} :
     ∀ x ∈ recsOf h o, x.1 ≤ T := by
@@ -194,6 +351,8 @@ theorem find?_oid_map_packRec (l : List Rec) (o : Oid) :
 
 theorem recOf_core (t : Txn) (o : Oid) : (Txn.core t).recOf o = (t.recOf o).map packRec := by
   unfold Txn.recOf Txn.core
+  simp only
+  rw [dedupLast_map (f := packRec) (fun _ => rfl)]
   exact find?_oid_map_packRec _ _
 
 def tagPack (x : Tid × Rec) : Tid × Rec := (x.1, packRec x.2)
